@@ -145,7 +145,7 @@ fn model_acyclic_edges(n: usize, edges: &[(usize, usize)]) -> bool {
     seen == n
 }
 
-fn gen_op(rng: &mut Rng, cfg: &Cfg, m: &AdjModel) -> Op {
+fn gen_op(rng: &mut Rng, cfg: &Cfg, m: &AdjModel, last_refused: Option<(usize, usize)>) -> Op {
     let live = m.live_nodes();
     let node = |rng: &mut Rng| -> usize { live[rng.below(live.len())] };
     let absent = |rng: &mut Rng| -> usize {
@@ -189,6 +189,11 @@ fn gen_op(rng: &mut Rng, cfg: &Cfg, m: &AdjModel) -> Op {
                             }
                             (tail, e.a)
                         }
+                        4 if last_refused.map_or(false, |(x, y)| m.node(x).is_some() && m.node(y).is_some()) => {
+                            // retry of the pair that was refused last (the path that made it a
+                            // cycle may be gone by now)
+                            last_refused.unwrap()
+                        }
                         _ => (node(rng), node(rng)),
                     };
                     // Build::update_edge panics on an invalid edge: only as an injected fault
@@ -203,6 +208,12 @@ fn gen_op(rng: &mut Rng, cfg: &Cfg, m: &AdjModel) -> Op {
                 let le = m.live_edges();
                 if le.is_empty() || (rng.below(1000) as u32) < cfg.fault_permille {
                     Op::RemoveEdge((m.edges.len() + rng.below(2)).min(m.max_index))
+                } else if let (Some((_, y)), true) = (last_refused, rng.chance(1, 3)) {
+                    // cut a path that starts at the refused edge's target
+                    match m.out_list(y).first() {
+                        Some(e) => Op::RemoveEdge(e.0),
+                        None => Op::RemoveEdge(le[rng.below(le.len())]),
+                    }
                 } else {
                     Op::RemoveEdge(le[rng.below(le.len())])
                 }
@@ -269,7 +280,8 @@ macro_rules! acyclic_runner {
             // the order as a sequence of node indices
             let order_of = |ac: &Acyclic<G<Ix>>| -> Vec<usize> { ac.nodes_iter().map(|n| n.index()).collect() };
 
-            while let Some(op) = feed.next(|rng| gen_op(rng, cfg, &m)) {
+            let mut last_refused: Option<(usize, usize)> = None;
+            while let Some(op) = feed.next(|rng| gen_op(rng, cfg, &m, last_refused)) {
                 ops.push(op.clone());
                 let (kind, code) = op.kind();
                 acc.op(kind, code);
@@ -315,6 +327,9 @@ macro_rules! acyclic_runner {
                         } else {
                             let self_loop = a == b;
                             let cycle = !self_loop && reaches(&m, b, a);
+                            if cycle {
+                                last_refused = Some((a, b));
+                            }
                             let valid = !self_loop && !cycle;
                             let w = fresh();
                             let before_order = order_of(&ac);
